@@ -246,6 +246,35 @@ func runC02(e *env, n int) {
 		c.nontriv = true
 		c.flush(e, "empty blob from an empty cache")
 	}
+	// blobs larger than one 64 KiB decoder block (128 KiB, 128 KiB + 1, ~300 KiB; incompressible and
+	// compressible) through the paths that buffer a whole blob: BatchReadBlobs, GetTree on a Directory
+	// blob of that size, GetActionResult inlining — in EVERY run, on the zstd-storage fixtures
+	for _, f := range e.fx {
+		if f.mode != "zstd" || len(e.cases) >= n {
+			continue
+		}
+		sizes := []int{128 << 10, 128<<10 + 1, 300000 + r.Intn(9000)}
+		var bl []*blob
+		for k, sz := range sizes {
+			bl = append(bl, freshBlob(r, sz, (k+int(e.rep.Seed))%2 == 0))
+		}
+		c := &rcase{f: f}
+		for _, b := range bl {
+			if st := f.httpPut(b.hash, b.data, httpOpts{abortAt: -1}); st != cOK {
+				panic("c02: upload failed: " + string(st))
+			}
+			bd, _ := describe(b.data, false, b.hash, false)
+			c.ops = append(c.ops, fmt.Sprintf("FHttpPut true %s %s (XAbsent) CeNone %s %s", CS(b.hash), CZ(int64(len(b.data))), bd.coq(), CS(nextRnd())))
+			c.obs = append(c.obs, "OSt SOk")
+			c.batchRead(e, r, b, false, true)
+			c.batchRead(e, r, b, true, true)
+			c.bsRead(e, b, false, 65535+int64(r.Intn(3)), 0, true)
+			c.httpGet(e, b, false, true)
+		}
+		c.flush(e, "blobs larger than a 64 KiB decoder block")
+		inlineCaseOf(e, f, bl[1], bl[2], bl[0])
+		treeCaseN(e, f, 1500)
+	}
 	for i := r.Intn(84); len(e.cases) < n; i++ {
 		f := e.fx[i%len(e.fx)]
 		if i%7 == 5 {
@@ -325,7 +354,10 @@ func runC02(e *env, n int) {
 }
 
 // GetTree: a generated directory tree, some children never stored
-func treeCase(e *env, f *fixture) {
+func treeCase(e *env, f *fixture) { treeCaseN(e, f, 1) }
+
+// nfiles file entries per directory: ~90 bytes each, so 1500 make a Directory blob well over 64 KiB
+func treeCaseN(e *env, f *fixture, nfiles int) {
 	r := e.r
 	c := &rcase{f: f, nontriv: true}
 	type node struct {
@@ -339,11 +371,21 @@ func treeCase(e *env, f *fixture) {
 	build = func(depth int) *node {
 		uniq++
 		nd := &node{dir: &pb.Directory{}}
-		nd.dir.Files = append(nd.dir.Files, &pb.FileNode{Name: fmt.Sprintf("f%d-%d", uniq, r.Intn(1<<30)), Digest: &pb.Digest{Hash: genHash(r), SizeBytes: int64(1 + r.Intn(99))}})
-		if depth < 3 {
-			for k, nk := 0, r.Intn(3); k < nk; k++ {
+		for k := 0; k < nfiles; k++ {
+			nd.dir.Files = append(nd.dir.Files, &pb.FileNode{Name: fmt.Sprintf("f%d-%d-%d", uniq, k, r.Intn(1<<30)), Digest: &pb.Digest{Hash: genHash(r), SizeBytes: int64(1 + r.Intn(99))}})
+		}
+		maxDepth := 3
+		if nfiles > 1 {
+			maxDepth = 1
+		}
+		if depth < maxDepth {
+			nk := r.Intn(3)
+			if nfiles > 1 {
+				nk = 1
+			}
+			for k := 0; k < nk; k++ {
 				kid := build(depth + 1)
-				kid.missing = r.Chance(20)
+				kid.missing = r.Chance(20) && nfiles == 1
 				nd.kids = append(nd.kids, kid)
 				nd.dir.Directories = append(nd.dir.Directories, &pb.DirectoryNode{Name: fmt.Sprintf("d%d", k), Digest: &pb.Digest{Hash: kid.b.hash, SizeBytes: int64(len(kid.b.data))}})
 			}
@@ -414,15 +456,19 @@ func treeCase(e *env, f *fixture) {
 			}
 		}
 	}
-	c.flush(e, fmt.Sprintf("tree of %d stored directories", len(seen)))
+	c.flush(e, fmt.Sprintf("tree of %d stored directories (root blob %d bytes)", len(seen), len(root.b.data)))
 }
 
 // fields inlined into a returned ActionResult (direct oracle only: the action-cache side of
 // GetActionResult belongs to the C06/C11 models)
 func inlineCase(e *env, f *fixture) {
 	r := e.r
+	inlineCaseOf(e, f, freshBlob(r, 1+r.Intn(5000), false), freshBlob(r, 1+r.Intn(300), true), freshBlob(r, pickSize(r), false))
+}
+
+func inlineCaseOf(e *env, f *fixture, so, se, of *blob) {
+	r := e.r
 	c := &rcase{f: f, nontriv: true}
-	so, se, of := freshBlob(r, 1+r.Intn(5000), false), freshBlob(r, 1+r.Intn(300), true), freshBlob(r, pickSize(r), false)
 	var es []buEntry
 	for _, b := range []*blob{so, se, of} {
 		es = append(es, buEntry{b.hash, int64(len(b.data)), 0, b.data})
@@ -446,6 +492,9 @@ func inlineCase(e *env, f *fixture) {
 		panic(err)
 	}
 	wantSo, wantSe, wantOf := r.Chance(70), r.Chance(70), r.Chance(70)
+	if len(so.data) > 65536 {
+		wantSo, wantSe, wantOf = true, true, true
+	}
 	var files []string
 	if wantOf {
 		files = []string{"out/f0"}
